@@ -154,7 +154,11 @@ def run_constructor(name, columns, rows):
     return before, df, out
 
 
+_LAST = [None, None]    # [latest judge_constructor() arguments in this process, the ones before]
+
+
 def judge_constructor(name, columns, rows):
+    _LAST[1], _LAST[0] = _LAST[0], [name, list(columns), [list(r) for r in rows]]
     ok, res = safe(run_constructor, name, columns, rows)
     if not ok:
         return [({'kind': 'exception', 'step': name.split(':')[0]}, f'{name}: raised {res}')], False
@@ -238,7 +242,7 @@ def _alone(job):
             if grew:
                 st.count('nontrivial')
             for sig, msg in fails:
-                st.violation({'kind': 'alone', 'constructor': name, 'columns': cols, 'rows': rows}, msg, sig)
+                st.violation({'kind': 'alone', 'constructor': name, 'columns': cols, 'rows': rows, 'after': _LAST[1]}, msg, sig)   # the preceding call in this process: a failure caused by what it left behind replays only together with it
     if lo == 0:
         st.sample({'kind': 'alone', 'constructor': 'mv:x', 'columns': cols, 'rows': [['a,b-c', 'b-a', '0'], ['{}', '', '1']]})
     return st
@@ -515,6 +519,8 @@ def eval_case(case):
     if case['kind'] == 'collide':
         return [m for _, m in judge_collision(case['constructor'], case['rows'], case['derived'], case['pos'])]
     if case['kind'] == 'alone':
+        if case.get('after'):
+            judge_constructor(*case['after'])
         fails, _ = judge_constructor(case['constructor'], case['columns'], case['rows'])
     else:
         fails, _ = judge_batch(case['rows'], frozenset(case['flags']), case['heuristic'])
